@@ -13,6 +13,7 @@ CONSTANTS
   SCAN_NO_ENTRY_CHECK = FALSE
   SCAN_DUP = FALSE
   ISCAN_NO_REWIND = FALSE
+  LATE_PARENT = FALSE
   SCAN_FRESH_VERSION = FALSE
 INVARIANTS LinOK ScanOK NvOK RootOpsOK Quiescent
 PROPERTY Termination
